@@ -344,21 +344,27 @@ def Reader.copyToFront (r : Reader σ) : Option (Reader σ) :=
                       inputLen := r.inputLen - r.inputOffset, inputOffset := 0, bufAcc := r.bufAcc + 3 }
     else some { r with bufAcc := r.bufAcc + 2 }
 
-/-- the refill loop `while self.input_len < buffer.len() && !self.input_eof { self.input.read(..) }`
-of `read`: `some c` = the wrapped reader failed with `c` (`return Err(e)`).  One buffer access
-per evaluation of the condition, one per read. -/
-def Reader.fill (r : Reader σ) : Reader σ × Option Nat :=
-  if h : r.inputLen < r.buf.length ∧ r.eof = false then
-    match r.src.read (r.buf.length - r.inputLen) with
-    | (src', .error c) => ({ r with src := src', bufAcc := r.bufAcc + 2 }, some c)
+/-- result of the refill loop shared by the reader and the copy function -/
+structure Fill where
+  buf : Bytes
+  len : Nat
+  eof : Bool
+  src : Source
+  err : Option Nat        -- the wrapped reader failed with this code (the loop was left)
+  reads : Nat             -- calls made on the retry wrapper
+
+/-- `while len < buf.len() && !eof { match src.read(&mut buf[len..]) { Err(e) => …leave…,
+Ok(0) => eof = true, Ok(n) => len += n } }` — reader.rs `read` (with `len = input_len`) and the
+refill of `BrotliCompressCustomIoCustomDict` (with `len = available_in`, `next_in_offset = 0`) -/
+def fillBuf (buf : Bytes) (len : Nat) (eof : Bool) (src : Source) (reads : Nat) : Fill :=
+  if h : len < buf.length ∧ eof = false then
+    match src.read (buf.length - len) with
+    | (src', .error c) => ⟨buf, len, eof, src', some c, reads + 1⟩
     | (src', .ok bs) =>
-      if hz : bs.length = 0 then
-        Reader.fill { r with src := src', eof := true, bufAcc := r.bufAcc + 2 }
-      else
-        Reader.fill { r with src := src', buf := storeAt r.buf r.inputLen bs, inputLen := r.inputLen + bs.length,
-                             bufAcc := r.bufAcc + 2 }
-  else ({ r with bufAcc := r.bufAcc + 1 }, none)
-termination_by (r.buf.length - r.inputLen) + (if r.eof then 0 else 1)
+      if hz : bs.length = 0 then fillBuf buf len true src' (reads + 1)
+      else fillBuf (storeAt buf len bs) (len + bs.length) eof src' (reads + 1)
+  else ⟨buf, len, eof, src, none, reads⟩
+termination_by (buf.length - len) + (if eof then 0 else 1)
 decreasing_by
   · simp [h.2]
   · simp only [storeAt_length, h.2]
@@ -366,35 +372,61 @@ decreasing_by
     simp
     omega
 
-/-- the loop of `CustomRead::read`; `cap` = `buf.len()` of the caller.  The loop runs while
-`output_offset == 0`, so every iteration starts with `avail_out = cap`. -/
+/-- the refill loop of `read`: `some c` = the wrapped reader failed with `c` (`return Err(e)`).
+One buffer access per evaluation of the loop condition, one per read. -/
+def Reader.fill (r : Reader σ) : Reader σ × Option Nat :=
+  let f := fillBuf r.buf r.inputLen r.eof r.src 0
+  ({ r with buf := f.buf, inputLen := f.len, eof := f.eof, src := f.src,
+            bufAcc := r.bufAcc + 2 * f.reads + (if f.err.isSome then 0 else 1) }, f.err)
+
+/-- one iteration of the `while output_offset == 0` loop of `read`: leave the loop with a
+result, or go round again -/
+inductive RIter (σ : Type) where
+  | stop (r : Reader σ) (o : Out (Except Err Bytes))
+  | cont (r : Reader σ)
+
+/-- the state right after the `compress_stream` call of an iteration (before `copy_to_front`);
+`cap` = `buf.len()` of the caller = `avail_out` (the loop runs while `output_offset == 0`) -/
+def Reader.afterStep (E : Enc σ) (cap : Nat) (r1 : Reader σ) : Reader σ :=
+  let availIn := r1.inputLen - r1.inputOffset
+  let op := if availIn = 0 then Op.finish else Op.process
+  let input := (r1.buf.drop r1.inputOffset).take availIn
+  let st := E.step r1.enc op input cap
+  { r1 with enc := st.1, elog := ⟨op, input, cap, st.2, E.hasMore st.1, E.isFinished st.1⟩ :: r1.elog,
+            bufAcc := r1.bufAcc + 1, inputOffset := r1.inputOffset + st.2.consumed,
+            totalOut := if st.2.produced.length > 0 then st.2.tot else r1.totalOut }
+
+/-- the body of the loop of `CustomRead::read` -/
+def Reader.iter (E : Enc σ) (cap : Nat) (r : Reader σ) : RIter σ :=
+  match r.fill with
+  | (r1, some c) => .stop r1 (.done (.error (.inner c)))
+  | (r1, none) =>
+    if r1.inputLen < r1.inputOffset then .stop r1 .panic
+    else
+      let availIn := r1.inputLen - r1.inputOffset
+      let op := if availIn = 0 then Op.finish else Op.process
+      let input := (r1.buf.drop r1.inputOffset).take availIn
+      let ans := (E.step r1.enc op input cap).2
+      let r2 := r1.afterStep E cap
+      if ans.consumed > input.length ∨ ans.produced.length > cap ∨ input.length ≠ availIn then .stop r2 .panic
+      else
+        match (if availIn - ans.consumed = 0 then r2.copyToFront else some r2) with
+        | none => .stop r2 .panic
+        | some r3 =>
+          if !ans.ok then
+            if r3.errInvalid then .stop { r3 with errInvalid := false } (.done (.error .invalidData))
+            else .stop r3 .panic
+          else if E.isFinished r3.enc then .stop r3 (.done (.ok ans.produced))
+          else if ans.produced.length ≠ 0 then .stop r3 (.done (.ok ans.produced))
+          else .cont r3
+
+/-- the loop of `CustomRead::read` -/
 def Reader.readLoop (E : Enc σ) (cap : Nat) : Nat → Reader σ → Reader σ × Out (Except Err Bytes)
   | 0, r => (r, .livelock)
   | fuel + 1, r =>
-    match r.fill with
-    | (r1, some c) => (r1, .done (.error (.inner c)))
-    | (r1, none) =>
-      if r1.inputLen < r1.inputOffset then (r1, .panic)
-      else
-        let availIn := r1.inputLen - r1.inputOffset
-        let op := if availIn = 0 then Op.finish else Op.process
-        let input := (r1.buf.drop r1.inputOffset).take availIn
-        let (e', ans) := E.step r1.enc op input cap
-        let rec_ : ERec := ⟨op, input, cap, ans, E.hasMore e', E.isFinished e'⟩
-        let tot := if ans.produced.length > 0 then ans.tot else r1.totalOut
-        let r2 : Reader σ := { r1 with enc := e', elog := rec_ :: r1.elog, bufAcc := r1.bufAcc + 1,
-                                        inputOffset := r1.inputOffset + ans.consumed, totalOut := tot }
-        if ans.consumed > input.length ∨ ans.produced.length > cap ∨ input.length ≠ availIn then (r2, .panic)
-        else
-          match (if availIn - ans.consumed = 0 then r2.copyToFront else some r2) with
-          | none => (r2, .panic)
-          | some r3 =>
-            if !ans.ok then
-              if r3.errInvalid then ({ r3 with errInvalid := false }, .done (.error .invalidData))
-              else (r3, .panic)
-            else if E.isFinished r3.enc then (r3, .done (.ok ans.produced))
-            else if ans.produced.length ≠ 0 then (r3, .done (.ok ans.produced))
-            else Reader.readLoop E cap fuel r3
+    match Reader.iter E cap r with
+    | .stop r' o => (r', o)
+    | .cont r' => Reader.readLoop E cap fuel r'
 
 /-- `CustomRead::read(buf)` with `buf.len() = cap` -/
 def Reader.read (E : Enc σ) (fuel : Nat) (r : Reader σ) (cap : Nat) : Reader σ × Out (Except Err Bytes) :=
@@ -451,67 +483,73 @@ decreasing_by
   omega
 
 /-- the refill loop of the copy function (entered with `available_in == 0 && !eof`, after
-`next_in_offset = 0`): `while available_in < input_buffer.len() && !eof { r.read(&mut input_buffer[available_in..]) }` -/
+`next_in_offset = 0`); a read error is recorded, ends the input (`eof`) and leaves the loop -/
 def Copy.fill (c : Copy σ) : Copy σ :=
-  if h : c.availableIn < c.ibuf.length ∧ c.eof = false then
-    match c.src.read (c.ibuf.length - c.availableIn) with
-    | (src', .error e) => { c with src := src', readErr := some (.inner e), eof := true }
-    | (src', .ok bs) =>
-      if hz : bs.length = 0 then Copy.fill { c with src := src', eof := true }
-      else Copy.fill { c with src := src', ibuf := storeAt c.ibuf c.availableIn bs, availableIn := c.availableIn + bs.length }
-  else c
-termination_by (c.ibuf.length - c.availableIn) + (if c.eof then 0 else 1)
-decreasing_by
-  · simp [h.2]
-  · simp only [storeAt_length, h.2]
-    have := h.1
-    simp
-    omega
+  let f := fillBuf c.ibuf c.availableIn c.eof c.src 0
+  match f.err with
+  | some e => { c with ibuf := f.buf, availableIn := f.len, src := f.src, readErr := some (.inner e), eof := true }
+  | none => { c with ibuf := f.buf, availableIn := f.len, src := f.src, eof := f.eof }
+
+/-- one iteration of the `loop` of the copy function -/
+inductive CIter (σ : Type) where
+  | stop (c : Copy σ) (o : Out (Except Err Nat))
+  | cont (c : Copy σ)
+
+/-- refill (`if available_in == 0 && !eof { next_in_offset = 0; … }`) -/
+def Copy.refill (c : Copy σ) : Copy σ :=
+  if c.availableIn = 0 ∧ c.eof = false then Copy.fill { c with nextIn := 0 } else c
+
+/-- the state right after the `compress_stream` call of an iteration -/
+def Copy.afterStep (E : Enc σ) (c1 : Copy σ) : Copy σ :=
+  let op := if c1.availableIn = 0 then Op.finish else Op.process
+  let input := (c1.ibuf.drop c1.nextIn).take c1.availableIn
+  let cap := c1.obufSize - c1.pending.length
+  let st := E.step c1.enc op input cap
+  { c1 with enc := st.1, elog := ⟨op, input, cap, st.2, E.hasMore st.1, E.isFinished st.1⟩ :: c1.elog,
+            nextIn := c1.nextIn + st.2.consumed, availableIn := c1.availableIn - st.2.consumed,
+            pending := c1.pending ++ st.2.produced,
+            totalOut := if st.2.produced.length > 0 then st.2.tot else c1.totalOut }
+
+/-- the body of the loop of `BrotliCompressCustomIoCustomDict` -/
+def Copy.iter (E : Enc σ) (c : Copy σ) : CIter σ :=
+  let c1 := c.refill
+  let op := if c1.availableIn = 0 then Op.finish else Op.process
+  let input := (c1.ibuf.drop c1.nextIn).take c1.availableIn
+  let cap := c1.obufSize - c1.pending.length
+  let ans := (E.step c1.enc op input cap).2
+  let c2 := c1.afterStep E
+  let fin := E.isFinished c2.enc
+  if ans.consumed > input.length ∨ ans.produced.length > cap ∨ input.length ≠ c1.availableIn
+      ∨ c1.pending.length > c1.obufSize then
+    .stop c2 .panic
+  else
+    -- available_out == 0 || fin  →  hand the staged bytes over
+    let drained : Copy σ × Option Err :=
+      if c2.pending.length = c2.obufSize ∨ fin then
+        match copyDrain c2.sink c2.pending with
+        | (s', .ok ()) => ({ c2 with sink := s', pending := [] }, none)
+        | (s', .error de) =>
+          -- BrotliEncoderDestroyInstance(s); read_err?; return Err(e | unexpected_eof_error_constant)
+          let own : Err := match de with | .inner c => .inner c | .zero => .unexpectedEof
+          ({ c2 with sink := s' }, some (match c2.readErr with | some re => re | none => own))
+      else (c2, none)
+    match drained with
+    | (c3, some e) => .stop c3 (.done (.error e))
+    | (c3, none) =>
+      if !ans.ok then
+        .stop c3 (.done (.error (match c3.readErr with | some re => re | none => Err.unexpectedEof)))
+      else if fin then
+        match c3.readErr with
+        | some re => .stop c3 (.done (.error re))
+        | none => .stop c3 (.done (.ok c3.totalOut))
+      else .cont c3
 
 def Copy.loop (E : Enc σ) : Nat → Copy σ → Copy σ × Out (Except Err Nat)
   | 0, c => (c, .livelock)
   | fuel + 1, c =>
-    -- refill
-    let c1 : Copy σ :=
-      if c.availableIn = 0 ∧ !c.eof then Copy.fill { c with nextIn := 0 }
-      else c
-    let op := if c1.availableIn = 0 then Op.finish else Op.process
-    let input := (c1.ibuf.drop c1.nextIn).take c1.availableIn
-    let cap := c1.obufSize - c1.pending.length
-    let (e', ans) := E.step c1.enc op input cap
-    let fin := E.isFinished e'
-    let rec_ : ERec := ⟨op, input, cap, ans, E.hasMore e', fin⟩
-    let tot := if ans.produced.length > 0 then ans.tot else c1.totalOut
-    if ans.consumed > input.length ∨ ans.produced.length > cap ∨ input.length ≠ c1.availableIn
-        ∨ c1.pending.length > c1.obufSize then
-      ({ c1 with enc := e', elog := rec_ :: c1.elog }, .panic)
-    else
-      let c2 : Copy σ := { c1 with enc := e', elog := rec_ :: c1.elog, nextIn := c1.nextIn + ans.consumed,
-                                    availableIn := c1.availableIn - ans.consumed,
-                                    pending := c1.pending ++ ans.produced, totalOut := tot }
-      -- available_out == 0 || fin  →  hand the staged bytes over
-      let drained : Copy σ × Out (Except Err Unit) :=
-        if c2.pending.length = c2.obufSize ∨ fin then
-          match copyDrain c2.sink c2.pending with
-          | (s', .ok ()) => ({ c2 with sink := s', pending := [] }, .done (.ok ()))
-          | (s', .error de) =>
-            -- BrotliEncoderDestroyInstance(s); read_err?; return Err(e | unexpected_eof_error_constant)
-            let own : Err := match de with | .inner c => .inner c | .zero => .unexpectedEof
-            ({ c2 with sink := s' }, .done (.error (match c2.readErr with | some re => re | none => own)))
-        else (c2, .done (.ok ()))
-      match drained with
-      | (c3, .panic) => (c3, .panic)
-      | (c3, .livelock) => (c3, .livelock)
-      | (c3, .done (.error e)) => (c3, .done (.error e))
-      | (c3, .done (.ok ())) =>
-        if !ans.ok then
-          let re := match c3.readErr with | some re => re | none => Err.unexpectedEof
-          (c3, .done (.error re))
-        else if fin then
-          match c3.readErr with
-          | some re => (c3, .done (.error re))
-          | none => (c3, .done (.ok c3.totalOut))
-        else Copy.loop E fuel c3
+    match Copy.iter E c with
+    | .stop c' o => (c', o)
+    | .cont c' => Copy.loop E fuel c'
 
 /-- `BrotliCompressCustomIoCustomDict` with buffers of `ib` / `ob` bytes (dict = ∅) -/
 def Copy.run (E : Enc σ) (fuel ib ob : Nat) (e : σ) (src : Source) (sink : Sink) : Copy σ × Out (Except Err Nat) :=
